@@ -574,8 +574,10 @@ def run_property(pid, tier, seed):
         try:
             for cfg in sorted(set(c for _, c, _ in streams(pid, "quick", 0)) | {"u", "n"}):
                 infra.build_binary(cfg, "harness")
-            du, dn, changed = infra.extraction(full=(tier != "quick" and pid in ("C11",)))
+            du, dn, changed = infra.extraction(full=(tier != "quick" and pid in ("C11",)), allow_plain=(pid != "C05"))
             ctx.cov["generated_changed"] = changed
+            if infra.EXTRACT_NOTE:
+                ctx.cov["extractor_note"] = dict(infra.EXTRACT_NOTE)
             ctx.generated_text = open(os.path.join(LEAN, "RdsModel", "Generated.lean")).read()
             # T0: translate the current C source (tools/c2lean.py) -> RdsC/Translated.lean
             ctx.translated_text, tchanged, tmsg = infra.translation()
